@@ -18,6 +18,7 @@ import hashlib
 import json
 import multiprocessing as mp
 import os
+import re
 import sys
 import time
 import traceback
@@ -334,8 +335,68 @@ class Ctx:
             self.res.counters["sweep_incomplete:" + domain] += 1
 
 
+def split_top_level(text: str) -> list[str]:
+    """Independent top-level chunks of a Markdown text: split at blank lines that are followed by an unindented line,
+    outside fenced code (and after the frontmatter block, which stays with the first chunk)."""
+    lines = text.split("\n")
+    chunks: list[list[str]] = [[]]
+    fence = None
+    start = 0
+    if lines and lines[0].strip() == "---":
+        for j in range(1, len(lines)):
+            if lines[j].strip() == "---":
+                start = j + 1
+                break
+        chunks[0] = lines[:start]
+    for i in range(start, len(lines)):
+        l = lines[i]
+        m = re.match(r"^(`{3,}|~{3,})", l)
+        if m and fence is None:
+            fence = m.group(1)[0] * len(m.group(1))
+        elif fence is not None and re.match(r"^" + re.escape(fence[0]) + "{" + str(len(fence)) + r",}[ \t]*$", l):
+            fence = None
+        if fence is None and l.strip() == "" and i + 1 < len(lines) and lines[i + 1][:1] not in ("", " ", "\t") and any(x.strip() for x in chunks[-1]):
+            chunks.append([])
+            continue
+        chunks[-1].append(l)
+    out = ["\n".join(c).strip("\n") + "\n" for c in chunks if any(x.strip() for x in c)]
+    return out
+
+
 def sig_hit(mod: Any, kfs: list[KnownFinding], case: Any, f: Failure) -> str | None:
-    """Slug of the open known finding of this property whose narrow signature matches the failure, if any."""
+    """Slug of the open known finding of this property whose narrow signature matches the failure, if any. If none
+    matches the whole case and the property module allows it (DECOMPOSE_KEY = name of the document text in the case), the
+    document is split into independent top-level chunks: the failure counts as known if at least one chunk fails on its
+    own and every failing chunk matches a signature (several recorded findings in one document)."""
+    hit = _sig_hit_direct(mod, kfs, case, f)
+    keys = getattr(mod, "DECOMPOSE_KEY", None)
+    if hit or not keys or not isinstance(case, dict):
+        return hit
+    key = next((k for k in ((keys,) if isinstance(keys, str) else keys) if isinstance(case.get(k), str)), None)
+    if key is None:
+        return None
+    parts = split_top_level(case[key])
+    if len(parts) < 2:
+        return None
+    slugs = []
+    for part in parts:
+        sub = dict(case, **{key: part})
+        try:
+            f2 = mod.check_case(sub, Note())
+        except HarnessError:
+            raise
+        except Exception:  # noqa: BLE001
+            return None
+        if f2 is None:
+            continue
+        h2 = _sig_hit_direct(mod, kfs, sub, f2)
+        if h2 is None:
+            return None
+        slugs.append(h2)
+    return slugs[0] if slugs else None
+
+
+def _sig_hit_direct(mod: Any, kfs: list[KnownFinding], case: Any, f: Failure) -> str | None:
     sigs = getattr(mod, "SIGS", {})
     for k in kfs:
         if k.state != "open" or k.prop != mod.ID or not k.sig:
